@@ -16,7 +16,7 @@ ASSUMPTIONS = ["scipy.linalg.expm closed form of the linear rate equations is th
                "reference log-priors from vlib/ref.py (C16)"]
 RUN_OPTS = {"batch_size": 5, "timeout_per_case": 120.0}
 MINIMA = {"*": {"cost_evaluations": 300, "contract_evaluations": 300, "ll_data_entries": 1000, "permutation_pairs": 100, "history_pairs": 100,
-                "out_of_support_thetas": 20, "emcee_evaluations": 40, "differing_key_cases": 3, "differing_initial_condition_key_cases": 3, "reconfigured_evaluations": 40, "stochastic_cost_evaluations": 20, "square_time_arrays": 2}}
+                "out_of_support_thetas": 20, "emcee_evaluations": 40, "differing_key_cases": 2, "differing_initial_condition_key_cases": 2, "reconfigured_evaluations": 40, "stochastic_cost_evaluations": 20, "square_time_arrays": 2}}
 
 ALLP = ["kp", "k1", "k2", "d", "da"]
 
@@ -38,6 +38,8 @@ def rand_prior(rnd, center):
 
 def gen_case(rnd, thorough, i):
     N = rnd.randint(1, 4)
+    if i % 6 == 0 or i % 4 == 1:
+        N = max(N, 2)          # every second stochastic case is a square (N x N) one: it needs at least two trajectories
     T = rnd.randint(8, 30)
     true = {"kp": gen.nice(rnd, 0.5, 5), "k1": gen.nice(rnd, 0.2, 2), "k2": gen.nice(rnd, 0.2, 2), "d": gen.nice(rnd, 0.1, 1), "da": gen.nice(rnd, 0.05, 0.5)}
     est = rnd.choice([["k1"], ["k2"], ["k1", "k2"], ["k2", "d"], ["k1", "k2", "d"]])
@@ -92,7 +94,7 @@ def gen_case(rnd, thorough, i):
     return {"N": N, "T": T, "true": true, "est": est, "conds": conds, "condkeys": condkeys, "x0s": x0s, "grids": grids, "meas": meas, "noise": noise,
             "prior": prior, "norm": rnd.randint(1, 3), "thetas": thetas, "single_frame": (N == 1 and rnd.random() < 0.5),
             "ic_as_dict": False, "emcee": (i % 6 == 0), "stochastic": (i % 3 == 0),
-            "seed": rnd.getrandbits(30) + 1, "_": 0, "differing_keys": len(set(tuple(sorted(c)) for c in conds)) > 1,
+            "seed": rnd.getrandbits(30) + 1, "_": 0, "idx": i, "differing_keys": len(set(tuple(sorted(c)) for c in conds)) > 1,
             "differing_ic_keys": len(set(tuple(sorted(c)) for c in x0s)) > 1}
 
 
@@ -454,8 +456,8 @@ def run_case(case):
             sconds[0] = sconds[0] or {"pb": 2.5}
             sconds[r2.randrange(1, case["N"])] = {}           # an empty condition after a non-empty one
         fr, ics = [], []
-        # every third stochastic case uses as many time points as trajectories (a square N x T time array)
-        Ts = case["N"] if (case["N"] > 1 and case["seed"] % 3 == 0) else case["T"]
+        # every second stochastic case uses as many time points as trajectories (a square N x T time array)
+        Ts = case["N"] if (case["N"] > 1 and case.get("idx", case["seed"]) % 6 == 0) else case["T"]
         if Ts == case["N"]:
             C["square_time_arrays"] += 1
         for n in range(case["N"]):
